@@ -13,7 +13,7 @@ from . import progen
 from .editsim import check_consistent, modifying_registry
 from .model import iter_paths, resolve, sdump
 
-MUT_KINDS = ['replace_new', 'insert_new', 'delete', 'swap', 'dup_copy', 'dup_same', 'move', 'graft', 'prim']
+MUT_KINDS = ['replace_new', 'insert_new', 'delete', 'swap', 'dup_copy', 'dup_same', 'move', 'graft', 'prim', 'dict']
 
 MIN_LEN = {('BoolOp', 'values'): 2, ('MatchOr', 'patterns'): 2, ('Delete', 'targets'): 1, ('Assign', 'targets'): 1,
            ('Import', 'names'): 1, ('ImportFrom', 'names'): 1, ('Global', 'names'): 1, ('Nonlocal', 'names'): 1,
@@ -122,6 +122,30 @@ def gen_mutation(rng, tree, n_other):
             return None
         return {'m': kind, 'path': P(path), 'field': f, 'idx': rng.randint(0, len(getattr(node, f))), 'cat': cat,
                 'other': rng.randrange(n_other), 'pick': rng.randrange(1000)}
+    if kind == 'dict':
+        # Dict entries live in two parallel lists (keys / values): clear, delete, insert, swap, replace by foreign entries
+        inf = set()
+        for j in ast.walk(tree):
+            if isinstance(j, ast.JoinedStr):
+                inf.update(id(k) for k in ast.walk(j))
+        ds = [(path, node) for path, node, parent, field, idx in nodes if isinstance(node, ast.Dict) and id(node) not in inf]
+        if not ds:
+            return None
+        path, node = rng.choice(ds)
+        n = len(node.keys)
+        ops = ['ins', 'ins', 'foreign_all', 'foreign_tail'] + (['clear', 'del', 'del'] if n else []) + (['swap'] if n > 1 else [])
+        op = rng.choice(ops)
+        mut = {'m': 'dict', 'path': P(path), 'op': op}
+        if op == 'ins':
+            mut.update(i=rng.randint(0, n), text=rng.choice(['nk: nv', '**nu', '"ns": [nv]', '1: nf(nx)']))
+        elif op == 'del':
+            mut.update(i=rng.randrange(n))
+        elif op == 'swap':
+            i = rng.randrange(n)
+            mut.update(i=i, j=rng.choice([k for k in range(n) if k != i]))
+        elif op in ('foreign_all', 'foreign_tail'):
+            mut.update(i=rng.randint(0, n), text=rng.choice(['{fs : ft, **fu}', '{fa: fb,\n fc: [fd],  # c\n}', '{**fu, 1: 2, 3: 4}']))
+        return mut
     if kind == 'prim':
         c = []
         for path, node, parent, field, idx in nodes:
@@ -219,6 +243,43 @@ def apply_mutation(tree, mut, others, live):
             setattr(parent, field, new)
         else:
             getattr(parent, field)[idx] = new
+        return
+    if m == 'dict':
+        if not isinstance(node, ast.Dict):
+            raise KeyError('dict')
+        ks, vs = node.keys, node.values
+        op = mut['op']
+        if op == 'clear':
+            ks[:] = []
+            vs[:] = []
+        elif op == 'del':
+            if mut['i'] >= len(ks):
+                raise KeyError('idx')
+            del ks[mut['i']], vs[mut['i']]
+        elif op == 'swap':
+            i, j = mut['i'], mut['j']
+            if max(i, j) >= len(ks):
+                raise KeyError('idx')
+            ks[i], ks[j] = ks[j], ks[i]
+            vs[i], vs[j] = vs[j], vs[i]
+        elif op == 'ins':
+            d = ast.parse('{' + mut['text'] + '}', mode='eval').body
+            i = min(mut['i'], len(ks))
+            ks.insert(i, d.keys[0])
+            vs.insert(i, d.values[0])
+        else:  # entries taken verbatim from ANOTHER tree's Dict (a real FST tree when live)
+            if live:
+                import fst
+                d = fst.FST(mut['text'], 'exec').a.body[0].value
+            else:
+                d = ast.parse(mut['text']).body[0].value
+            i = 0 if op == 'foreign_all' else min(mut['i'], len(ks))
+            if not live:
+                for x in list(d.keys) + list(d.values):
+                    if x is not None:
+                        x._foreign = True
+            ks[i:] = d.keys
+            vs[i:] = d.values
         return
     if m == 'prim':
         v = mut['value']
